@@ -412,13 +412,13 @@ func applyMetricsOperatorOnSegments(mQuery *structs.MetricsQuery, allSearchReqes
 
 		var metricNames []string
 		if mQuery.IsRegexOnMetricName() {
-			// Regex Search on Metric Name. We need to get all the Metric Names in this Segment.
+			// Regex Search on Metric Name. We need to get all the Metric Names of the Segments of this tags tree holder.
 			if len(allMSearchReqs) == 0 {
 				mRes.AddError(fmt.Errorf("no metric search request found for the tags tree holder tthBaseDir: %s", tthBaseDir))
 				continue
 			}
 
-			metricNames, err = getRegexMatchedMetricNames(allMSearchReqs[0], mQuery.MetricNameRegexPattern, mQuery.MetricOperator)
+			metricNames, err = getRegexMatchedMetricNames(allMSearchReqs, mQuery.MetricNameRegexPattern, mQuery.MetricOperator)
 			if err != nil {
 				log.Errorf("qid=%d, applyMetricsOperatorOnSegments: Error getting regex matched metric names. Regex Pattern: %v, Error=%v", qid, mQuery.MetricNameRegexPattern, err)
 				continue
@@ -476,16 +476,21 @@ func applyMetricsOperatorOnSegments(mQuery *structs.MetricsQuery, allSearchReqes
 	}
 }
 
-func getRegexMatchedMetricNames(mSegSearchReq *structs.MetricsSearchRequest, regexPattern string, operator sutils.TagOperator) ([]string, error) {
-	var mNamesMap map[string]bool
-	var err error
-
-	if len(mSegSearchReq.UnrotatedMetricNames) > 0 {
-		mNamesMap = mSegSearchReq.UnrotatedMetricNames
-	} else {
-		mNamesMap, err = series.GetAllMetricNames(mSegSearchReq.MetricsKeyBaseDir)
-		if err != nil {
-			return nil, err
+// getRegexMatchedMetricNames returns the metric names that match the pattern among the names of all the given
+// segments (the search requests of one tags tree directory): each segment holds its own set of metric names.
+func getRegexMatchedMetricNames(mSegSearchReqs []*structs.MetricsSearchRequest, regexPattern string, operator sutils.TagOperator) ([]string, error) {
+	mNamesMap := make(map[string]bool)
+	for _, mSegSearchReq := range mSegSearchReqs {
+		segNamesMap := mSegSearchReq.UnrotatedMetricNames
+		if len(segNamesMap) == 0 {
+			var err error
+			segNamesMap, err = series.GetAllMetricNames(mSegSearchReq.MetricsKeyBaseDir)
+			if err != nil {
+				return nil, err
+			}
+		}
+		for mName := range segNamesMap {
+			mNamesMap[mName] = true
 		}
 	}
 
